@@ -54,6 +54,7 @@ def ops_alphabet(full=True):
     O.append(('setlist', b'il', 'int', [3, 4]))
     O.append(('addlist', b'il', 'int', [3]))
     O.append(('addlist', b'il', 'int', [3, 4]))
+    O.append(('addlist', b'il', 'int', []))        # an append of nothing
     O.append(('addlist', b'sl', 'str', [b'a']))
     O.append(('setlist', b'sl', 'str', [b'a', b'b']))
     O.append(('setlist', b'i', 'int', [3]))        # not a list
